@@ -271,6 +271,26 @@ def shooting_jacobian(chk):
         chk.absorb(ex)
 
 
+def _replay_period_carry():
+    """Compiled build: an orbit that already carries a provisional period (far from, equal to, or very close to the corrected one, as
+    continuation does when it lets a new member inherit the seed's period) is corrected: it must carry exactly the returned period."""
+    return '''
+import warnings; warnings.filterwarnings("ignore")
+from hiten.system import System
+l1 = System.from_bodies("earth", "moon").get_libration_point(1)
+scout = l1.create_orbit("halo", amplitude_z=0.02, zenith="southern"); scout.correct(); pstar = float(scout.period)
+bad = {}
+for name, prov in (("none", None), ("far", 2.0 * np.pi), ("equal", pstar), ("close_above", pstar * (1 + 4e-6)), ("close_below", pstar * (1 - 4e-6)), ("close_abs", pstar + 5e-9)):
+    o = l1.create_orbit("halo", amplitude_z=0.02 + 2e-5, zenith="southern")
+    if prov is not None: o.period = prov
+    res = o.correct()
+    want = 2.0 * float(res.half_period)
+    if float(o.period) != want: bad["provisional_period_" + name] = "orbit carries %.15g, correction returned %.15g" % (float(o.period), want)
+    if not np.array_equal(np.asarray(o.initial_state, dtype=float), np.asarray(res.x_corrected, dtype=float)): bad["state_" + name] = "orbit does not carry the corrected state"
+_verdict(bool(bad), **bad)
+'''
+
+
 def period_bookkeeping(chk):
     """(4) period = 2 * half_period, corrected state written back, caches reset; the interface packages the corrected state."""
     from hiten.algorithms.types.services import orbits as so
@@ -307,6 +327,44 @@ def period_bookkeeping(chk):
         so._OrbitCorrectionService.apply_correction(svc, payload)
     ok = same(dyn._initial_state, xf) and same(dyn._period, 2 * hp) and events[0] == 'reset'
     (chk.ok if ok else (lambda o, d: chk.fail(o, d, None)))('C05/(4)apply_correction', 'caches reset first, then initial state := corrected state, period := 2 * half_period')
+    # the same through the REAL dynamics service (its own period setter), for every period the orbit may carry beforehand:
+    # afterwards the orbit's period is exactly 2 * half_period and its state exactly the corrected one
+    real_cls = type('DynReal', (so._OrbitDynamicsService,), {})
+    real_cls.__abstractmethods__ = frozenset()
+    p_old = W.var('period_before')
+    exr = Explorer(max_paths=200)
+    with explore.activate(exr):
+        exr.assume(p_old > 0)
+        exr.assume(hp > 0)
+
+    def go_real():
+        dom = Stub(_initial_state=np.array([W.var('s%d' % i) for i in range(6)]), _libration_point=Stub(system=Stub(mu=W.var('mu'), dynsys='DYN', var_dynsys='VAR')))
+        d = real_cls(dom)
+        dom.dynamics = d
+        d.period = p_old
+        so._OrbitCorrectionService.apply_correction(Stub(domain_obj=dom), Stub(x_full=xf, half_period=hp))
+        return d
+    bad_real = None
+    paths_real = exr.run(go_real)
+    for pth in paths_real:
+        if pth.exc is not None:
+            bad_real = ('raised %r' % (pth.exc,), None)
+            break
+        d = pth.value
+        with explore.activate(exr):
+            goals = [Sym.lift(d.period) - 2 * hp == 0] + [Sym.lift(d.initial_state[i]) - xf[i] == 0 for i in range(6)]
+        goals = [g for g in goals if g is not True]
+        v, m_, kk = exr.prove_all(pth, goals) if goals else ('unsat', None, None)
+        if v != 'unsat':
+            bad_real = ('after the correction is applied the orbit carries period %s instead of 2 * half_period' % (d.period,) if kk == 0 else 'corrected state component not written back', m_)
+            break
+    chk.absorb(exr)
+    oid_r = 'C05/(4)apply_correction/real period setter'
+    if bad_real is None:
+        chk.ok(oid_r, '%d paths of the real period setter, symbolic previous period: period = 2 * half_period and state = corrected state afterwards' % len(paths_real))
+    else:
+        env_r = model_to_env(bad_real[1]) if bad_real[1] is not None else {}
+        chk.fail(oid_r, '%s, e.g. at %s' % (bad_real[0], fmt_env(env_r)), _replay_period_carry(), env_r)
     # correct(): returns (x_corrected, 2*half_period, result) of this very correction
     result = Stub(x_corrected=xf, half_period=hp, iterations=3, residual_norm=W.var('rn'))
     svc2 = Stub(correction_options=Stub(to_dict=lambda: {}), make_key=lambda *a: a, get_or_create=lambda k, f: f(), corrector=Stub(correct=lambda d, options=None: result),
